@@ -98,11 +98,17 @@ def gen_program(rng, tier):
         prog['defaults'] = d
         if rng.random() < 0.5:
             prog['mention_only'] = True     # an extra wire listed in defaults, never assigned here
+    # the caller may catch a refusal INSIDE the still open conditional_assignment block and go
+    # on with the remaining statements: the refused statement must then count for nothing
+    red = reduce_conflicts(tree)
+    if red is not None and red[1] and rng.random() < 0.6:
+        prog['catch_inside'] = True
     r = rng.random()
     if r < 0.18:
         prog['fault'] = {'kind': 'user_exception', 'at': rng.randrange(1, 12)}
     elif r < 0.24:
-        prog['fault'] = {'kind': 'wide_predicate', 'at': rng.randrange(1, 8)}
+        prog['fault'] = {'kind': 'wide_predicate', 'at': rng.randrange(1, 8),
+                         'caught': rng.random() < 0.5}
     elif r < 0.30:
         prog['fault'] = {'kind': 'nested', 'at': rng.randrange(1, 8)}
     return prog
@@ -207,6 +213,26 @@ def first_rejection(tree):
             if in_conflict(lits, other):
                 return idx, 'conflict'
         seen.setdefault(asg['assign'], []).append(lits)
+    return None
+
+
+def reduce_conflicts(tree):
+    """-> (tree without the assignments that must be refused, their indices in the original
+    walk order), refusals found one at a time as PyRTL meets them (a refused assignment leaves
+    nothing behind for later ones to conflict with); None if an 'empty' refusal (which PyRTL
+    may or may not raise) is involved."""
+    import copy
+    work = copy.deepcopy(tree)
+    alive = list(range(sum(1 for _ in walk_assignments(tree))))
+    gone = []
+    for _ in range(400):
+        rej = first_rejection(work)
+        if rej is None:
+            return work, gone
+        if rej[1] != 'conflict':
+            return None
+        gone.append(alive.pop(rej[0]))
+        _delete_assignment(work, rej[0])
     return None
 
 
@@ -329,8 +355,15 @@ def elaborate(prog, pi, ctx, res, share_next=None, shared=None):
                 if fault['kind'] == 'user_exception':
                     raise UserCodeError('injected')
                 if fault['kind'] == 'wide_predicate':
-                    with ctx.wide:
-                        pass
+                    if fault.get('caught'):
+                        try:
+                            with ctx.wide:
+                                pass
+                        except pyrtl.PyrtlError:
+                            res.faults.hit('wide_predicate_caught_inside')
+                    else:
+                        with ctx.wide:
+                            pass
                 if fault['kind'] == 'nested':
                     with pyrtl.conditional_assignment:
                         pass
@@ -354,6 +387,9 @@ def elaborate(prog, pi, ctx, res, share_next=None, shared=None):
                             else:
                                 tgt[it['addr']] |= val_of(it)
                     except pyrtl.PyrtlError:
+                        if prog.get('catch_inside'):
+                            state.setdefault('caught', []).append(me)
+                            continue
                         state['rejected_at'] = me
                         raise
                     if rej and rej[0] == me and rej[1] == 'conflict':
@@ -387,6 +423,23 @@ def elaborate(prog, pi, ctx, res, share_next=None, shared=None):
         if pyrtl.currently_under_condition():
             return Violation('state', 'still_under_condition_after_block',
                              {'program': pi, 'outcome': outcome}, ['after:' + str(outcome)])
+        if prog.get('catch_inside') and outcome == 'ok':
+            red = reduce_conflicts(prog['tree'])
+            if red is None:
+                raise HarnessError('catch_inside program with an empty refusal')
+            caught = sorted(state.get('caught', []))
+            res.faults.hit('refusals_caught_inside_block', len(caught))
+            unpredicted = [i for i in caught if i not in red[1]]
+            missing = [i for i in red[1] if i not in caught]
+            if unpredicted:
+                return Violation('conflict', 'conflict_free_assignment_rejected',
+                                 {'program': pi, 'assignment': unpredicted[0], 'predicted': sorted(red[1])},
+                                 ['caught_inside'])
+            if missing:
+                return Violation('conflict', 'conflicting_program_accepted',
+                                 {'program': pi, 'assignment': missing[0]}, ['caught_inside'])
+            prog = dict(prog, tree=red[0], catch_inside=False)
+            rej = None
         if 'accepted_conflict' in state and (fault is None or outcome == 'ok'):
             return Violation('conflict', 'conflicting_program_accepted',
                              {'program': pi, 'assignment': state['accepted_conflict']}, [])
@@ -423,7 +476,7 @@ def elaborate(prog, pi, ctx, res, share_next=None, shared=None):
                 o <<= live[ti]
         if extra is not None:
             ctx.mentioned.append(extra)
-    return ('ok', live)
+    return ('ok', live, prog)
 
 
 def run(case, res):
@@ -467,7 +520,7 @@ def run(case, res):
             cur.healthy = False
             res.probes.hit('aborted:' + r[1])
         else:
-            cur.programs.append((pi, r[1], prog))
+            cur.programs.append((pi, r[1], r[2]))
             res.probes.hit('completed')
             if prog['defaults'] is not None:
                 res.probes.hit('completed_with_defaults')
